@@ -97,6 +97,8 @@ class NumbaProxy(object):
 class C15(object):
     id = "C15"
     engine = "pysched"
+    time_keys = {"steps": "pre-emption points (bytecodes or source lines of the files under test)"}
+    fault_keys = ["switches", "permuted_prange_loops", "native_conformance_runs"]
     tiers = {"quick": {"runs": 1500, "budget_s": 60, "selftest_every": 40, "fresh_selftest": 6},
              "thorough": {"runs": 500000, "budget_s": 800, "selftest_every": 300, "fresh_selftest": 12}}
     rule = ("one run = (overlap graph with 1..60 nodes: chains in both directions and shuffled, stars, cliques, forests, "
